@@ -467,6 +467,13 @@ def ast_features(c):
                 feats.add('alter-empty')
             if cls == 'NestedQLBlock':
                 feats.add('nested-ql-block')
+            if cls == 'Shape' and 'expr' not in d and isinstance(d.get('elements'), list):
+                for el in d['elements']:
+                    if _is_node(el) and _is_node(nfields(el).get('expr')):
+                        st = nfields(nfields(el)['expr']).get('steps')
+                        if isinstance(st, list) and st and _is_node(st[0]) and \
+                                str(nfields(st[0]).get('name', '')).lower() in ('union', 'except', 'intersect'):
+                            feats.add('free-shape-partial-reserved')
             for kf in SETLIKE:
                 if isinstance(d.get(kf), list) and len(set(json.dumps(z) for z in d[kf])) != len(d[kf]):
                     feats.add('kinds-duplicate')
@@ -492,6 +499,11 @@ def ast_features(c):
                 cd_ = nfields(d['code'])
                 if 'from_function' in cd_ and ('code' in cd_ or 'nativecode' in d):
                     feats.add('function-from-function-plus-body')
+                if cd_.get('from_expr') is True and ('code' in cd_ or 'nativecode' in d):
+                    feats.add('function-from-expr-plus-body')
+                if isinstance(cd_.get('code'), str) and 'nativecode' not in d and str(cd_.get('language', '')).lower().endswith('edgeql') \
+                        and 'from_function' not in cd_ and cd_.get('from_expr') is not True:
+                    feats.add('function-edgeql-code-text')
             if cls == 'Shape' and 'elements' not in d:
                 feats.add('empty-shape')
             if cls == 'UpdateQuery' and 'shape' not in d:
